@@ -4,7 +4,7 @@
    backtracks (it never commits), so the number parsers decide. *)
 From TV Require Import Base.Prelude Base.Utf8 Base.Winnow Gen.Consts.
 From TV Require Import Model.Trivia Model.Strings Model.Datetime Model.Numbers Model.Tree Model.Parse Model.Document.
-From TV Require Import Proofs.NumbersRT_Lex.
+From TV Require Import Model.Write Proofs.NumbersRT_Lex Proofs.NumbersRT_Int.
 Require Import Lia ZifyBool ZifyN ZifyNat.
 
 (* ---- date_time backtracks on number-like text ---------------------------------------------------- *)
@@ -144,11 +144,283 @@ Proof.
   unfold context, pmap. destruct (partial_time i); simpl in H2; try contradiction. exact I.
 Qed.
 
-(* a leading sign: no digit at all, both alternatives backtrack at once *)
-Lemma no_dt_sign b s : is_sign b = true -> no_dt (b :: s).
+(* a leading non-digit (a sign): no digit at all, both alternatives backtrack at once *)
+Definition no_dt0 (s : bytes) : Prop :=
+  match s with
+  | [] => True
+  | b :: s' => if is_digit b then no_dt s' else True
+  end.
+
+Lemma unsigned_digits_nodigit m i :
+  match rest i with [] => True | b :: _ => is_digit b = false end ->
+  unsigned_digits (S m) (Some (S m)) i = Bt err0 i.
 Proof.
-  intro H. cbn [no_dt]. unfold is_sign in H.
-  apply orb_true_iff in H as [H|H]; apply byte_eqb_eq in H; subst b.
-  - cbn. split; discriminate.
-  - (* `-`: handled separately below; no_dt is too strong here *)
-Abort.
+  intro H. unfold unsigned_digits, unchecked_utf8, take_while_mn.
+  destruct (rest i) as [|b s]; [reflexivity|]. cbn [take_upto].
+  rewrite DT_DIGIT_is_digit, H. reflexivity.
+Qed.
+
+Lemma date_time_bt0 i : no_dt0 (rest i) -> is_bt (date_time i).
+Proof.
+  intro H0.
+  assert (C : no_dt (rest i) \/ match rest i with [] => True | b :: _ => is_digit b = false end).
+  { unfold no_dt0 in H0. destruct (rest i) as [|b s]; [left; exact I|].
+    destruct (is_digit b) eqn:E; [left; cbn [no_dt]; rewrite E; exact H0 | right; reflexivity]. }
+  destruct C as [C|C]; [apply date_time_bt, C|].
+  unfold date_time, alt, context, full_date, partial_time, time_hour, date_fullyear, two_digit_field, bind, try_map, pmap.
+  rewrite (unsigned_digits_nodigit 3 i C), (unsigned_digits_nodigit 1 i C). exact I.
+Qed.
+
+(* ---- float backtracks on integer text; float reads `[-] digits . digits` -------------------------- *)
+Definition is_e (b : byte) : bool := byte_eqb b x65 || byte_eqb b x45.
+
+Lemma exp_bt i : match rest i with [] => True | b :: _ => is_e b = false end -> exp i = Bt err0 i.
+Proof.
+  intro H. unfold exp, unchecked_utf8, taken, bind, one_of.
+  destruct (rest i) as [|b s]; [reflexivity|]. unfold is_e in H. cbv beta. rewrite H. reflexivity.
+Qed.
+
+Lemma frac_bt i : match rest i with [] => True | b :: _ => b <> dot end -> frac i = Bt err0 i.
+Proof.
+  intro H. unfold frac, unchecked_utf8, taken, bind.
+  rewrite (byte_not (rest i) dot i eq_refl H). reflexivity.
+Qed.
+
+Lemma float__bt i n :
+  dec_int_len (rest i) = LOk n ->
+  match skipn n (rest i) with [] => True | b :: _ => is_e b = false /\ b <> dot end ->
+  is_bt (float_ i).
+Proof.
+  intros EL Hh. pose proof (dec_int_spec i) as L. rewrite EL in L.
+  unfold float_, unchecked_utf8, taken, bind. rewrite L.
+  unfold alt, pvoid, pmap, bind.
+  rewrite exp_bt by (rewrite rest_advance; destruct (skipn n (rest i)); tauto).
+  rewrite frac_bt by (rewrite rest_advance; destruct (skipn n (rest i)); tauto).
+  exact I.
+Qed.
+
+Lemma special_float_bt i :
+  match (match rest i with b :: t => if is_sign b then t else rest i | [] => [] end) with
+  | [] => True
+  | c :: _ => c <> x69 /\ c <> x6e
+  end ->
+  is_bt (special_float i).
+Proof.
+  intro H. unfold special_float, bind, opt, one_of. fold is_sign.
+  assert (G : forall j, match rest j with [] => True | c :: _ => c <> x69 /\ c <> x6e end -> is_bt ((inf <|> nan) j)).
+  { intros j Hj. unfold alt, inf, nan, pvalue, pmap, lit, INF, NAN.
+    destruct (rest j) as [|c s]; [exact I|]. destruct Hj as [H1 H2]. cbn [strip_prefix].
+    destruct (byte_eqb x69 c) eqn:E1; [apply byte_eqb_eq in E1; congruence|].
+    destruct (byte_eqb x6e c) eqn:E2; [apply byte_eqb_eq in E2; congruence|]. exact I. }
+  destruct (rest i) as [|b t] eqn:Hr.
+  - specialize (G i). rewrite Hr in G. specialize (G I).
+    destruct ((inf <|> nan) i); simpl in G; try contradiction. exact I.
+  - destruct (is_sign b) eqn:Es; unfold is_sign in Es; cbv beta; rewrite Es.
+    + specialize (G (advance 1 i)). rewrite rest_advance, Hr in G. cbn [skipn] in G. specialize (G H).
+      destruct ((inf <|> nan) (advance 1 i)); simpl in G; try contradiction. exact I.
+    + specialize (G i). rewrite Hr in G. specialize (G H).
+      destruct ((inf <|> nan) i); simpl in G; try contradiction. exact I.
+Qed.
+
+Lemma float_bt i :
+  is_bt (float_ i) -> is_bt (special_float i) -> is_bt (float i).
+Proof.
+  intros H1 H2. unfold float, context, alt, and_then.
+  destruct (float_ i); simpl in H1; try contradiction.
+  destruct (special_float i); simpl in H2; try contradiction. exact I.
+Qed.
+
+(* zero_prefixable_int on a digit run that ends the input *)
+Lemma zpi_digits i fp :
+  rest i = fp -> fp <> [] -> forallb is_digit fp = true ->
+  zero_prefixable_int i = Ok fp (advance (length fp) i).
+Proof.
+  intros Hr Hne Hd. unfold zero_prefixable_int, unchecked_utf8, digit.
+  pose proof (digits_us_spec (in_class DIGIT) (in_class DIGIT) i) as H. rewrite Hr in H.
+  destruct fp as [|f0 ftl]; [contradiction|].
+  cbn [forallb] in Hd. apply andb_true_iff in Hd as [H0 Htl].
+  rewrite DIGIT_is_digit, H0 in H.
+  assert (Hcls : forallb (in_class DIGIT) ftl = true).
+  { clear - Htl. induction ftl as [|c s IH]; [reflexivity|]. cbn [forallb] in *.
+    apply andb_true_iff in Htl as [Hc Hs]. rewrite DIGIT_is_digit, Hc. apply IH, Hs. }
+  assert (EU : us_tail (in_class DIGIT) ftl = Some (length ftl)).
+  { rewrite <- (app_nil_r ftl) at 1. rewrite (us_tail_app _ [] _ (wf_tail_all _ _ Hcls)). cbn [us_tail]. f_equal. lia. }
+  rewrite EU in H.
+  rewrite (taken_ok _ _ _ _ H), Hr.
+  change (S (length ftl)) with (length (f0 :: ftl)).
+  rewrite firstn_all.
+  rewrite (ascii_utf8 (f0 :: ftl)); [reflexivity|].
+  apply digits_ascii. cbn [forallb]. rewrite H0, Htl. reflexivity.
+Qed.
+
+Lemma frac_digits i fp :
+  rest i = dot :: fp -> fp <> [] -> forallb is_digit fp = true ->
+  frac i = Ok (dot :: fp) (advance (S (length fp)) i).
+Proof.
+  intros Hr Hne Hd. unfold frac, unchecked_utf8.
+  assert (T : taken (byte_ dot ;;; context (cut_err zero_prefixable_int)) i
+              = Ok (firstn (S (length fp)) (rest i)) (advance (S (length fp)) i)).
+  { apply taken_ok with (a := fp). unfold bind, byte_, one_of. rewrite Hr.
+    change (byte_eqb dot dot) with true. cbv iota.
+    unfold context, cut_err.
+    rewrite (zpi_digits (advance 1 i) fp); [rewrite advance_advance; reflexivity | | exact Hne | exact Hd].
+    rewrite rest_advance, Hr. reflexivity. }
+  rewrite T, Hr. change (S (length fp)) with (length (dot :: fp)).
+  rewrite firstn_all.
+  rewrite (ascii_utf8 (dot :: fp)); [reflexivity|].
+  cbn [forallb]. rewrite (digits_ascii _ Hd). reflexivity.
+Qed.
+
+(* float_ on  pre ++ "." ++ fp  where dec_int reads exactly pre *)
+Lemma float__plain pre fp :
+  dec_int_len (pre ++ dot :: fp) = LOk (length pre) ->
+  fp <> [] -> forallb is_digit fp = true ->
+  float_ (new_input (pre ++ dot :: fp)) = Ok (pre ++ dot :: fp) (end_input (pre ++ dot :: fp)).
+Proof.
+  intros EL Hne Hd. set (t := pre ++ dot :: fp). set (i := new_input t).
+  pose proof (dec_int_spec i) as L. change (rest i) with t in L. unfold t in L at 1. rewrite EL in L.
+  pose proof (dec_int_len_ascii _ _ EL) as Hpre. rewrite firstn_app_exact in Hpre.
+  unfold float_, unchecked_utf8.
+  assert (T : taken (dec_int ;;; (pvoid exp <|> (frac ;;; pvoid (opt exp)))) i
+              = Ok (firstn (length t) (rest i)) (advance (length t) i)).
+  { apply taken_ok with (a := tt). unfold bind at 1. rewrite L.
+    set (j := advance (length pre) i).
+    assert (Hj : rest j = dot :: fp).
+    { unfold j. rewrite rest_advance. change (rest i) with (pre ++ dot :: fp). apply skipn_app_exact. }
+    unfold alt, pvoid at 1, pmap.
+    rewrite exp_bt by (rewrite Hj; reflexivity).
+    unfold bind. rewrite (frac_digits j fp Hj Hne Hd).
+    set (k := advance (S (length fp)) j).
+    assert (Hk : rest k = []).
+    { unfold k. rewrite rest_advance, Hj. change (S (length fp)) with (length (dot :: fp)).
+      apply skipn_all. }
+    unfold pvoid, pmap, opt. rewrite exp_bt by (rewrite Hk; exact I).
+    unfold k, j. rewrite advance_advance. f_equal. f_equal. unfold t. rewrite app_length. reflexivity. }
+  rewrite T. change (rest i) with t. rewrite firstn_all.
+  rewrite (ascii_utf8 t).
+  - unfold i. rewrite advance_all. reflexivity.
+  - unfold t. rewrite forallb_app, Hpre. cbn [forallb]. rewrite (digits_ascii _ Hd). reflexivity.
+Qed.
+
+(* ---- the number arm of `value` ------------------------------------------------------------------- *)
+Definition num_start (b : byte) : bool := is_digit b || is_sign b.
+
+Lemma num_start_class b : num_start b = true -> in_class VALUE_NUMBER_START b = true.
+Proof.
+  unfold num_start. intro H. apply orb_true_iff in H as [H|H].
+  - unfold in_class, VALUE_NUMBER_START. cbn [existsb fst snd]. unfold is_digit in H. lia.
+  - unfold is_sign in H. apply orb_true_iff in H as [H|H]; apply byte_eqb_eq in H; subst; reflexivity.
+Qed.
+
+Definition number_arm : parser value :=
+  pmap (fun d => scalar_value (SDatetime d)) date_time
+  <|> pmap (fun f => scalar_value (SFloat f)) float
+  <|> pmap (fun z => scalar_value (SInt z)) integer.
+
+Lemma value_body_number vr i b tl :
+  rest i = b :: tl -> num_start b = true -> value_body vr i = number_arm i.
+Proof.
+  intros Hr Hn. unfold value_body, bind, context at 1, peek, any. rewrite Hr.
+  assert (F : forall x, num_start x = false -> byte_eqb b x = false).
+  { intros x Hx. destruct (byte_eqb b x) eqn:E; [|reflexivity].
+    apply byte_eqb_eq in E. subst. congruence. }
+  rewrite (F QUOTATION_MARK eq_refl), (F APOSTROPHE eq_refl), (F ARRAY_OPEN eq_refl), (F INLINE_TABLE_OPEN eq_refl).
+  cbn [orb]. rewrite (num_start_class _ Hn). reflexivity.
+Qed.
+
+Lemma parse_value_number t b tl (s : scalar) :
+  t = b :: tl -> num_start b = true ->
+  number_arm (new_input t) = Ok (scalar_value s) (end_input t) ->
+  exists r d, parse_value_raw t = POk (VScalar s r d).
+Proof.
+  intros Ht Hn Harm.
+  unfold parse_value_raw, parse_all, bind, value_. cbn [value_f].
+  unfold value_step, pmap, with_span.
+  rewrite (value_body_number _ (new_input t) b tl); [|rewrite Ht; reflexivity | exact Hn].
+  rewrite Harm. unfold eof, end_input. cbn [rest]. unfold ret. cbn [lift_outcome].
+  unfold apply_raw, scalar_value, value_decorate. eauto.
+Qed.
+
+Lemma number_arm_int i z j :
+  is_bt (date_time i) -> is_bt (float i) -> integer i = Ok z j ->
+  number_arm i = Ok (scalar_value (SInt z)) j.
+Proof.
+  intros H1 H2 H3. unfold number_arm, alt, pmap.
+  destruct (date_time i); simpl in H1; try contradiction.
+  destruct (float i); simpl in H2; try contradiction.
+  rewrite H3. reflexivity.
+Qed.
+
+Lemma number_arm_float i f j :
+  is_bt (date_time i) -> float i = Ok f j ->
+  number_arm i = Ok (scalar_value (SFloat f)) j.
+Proof.
+  intros H1 H2. unfold number_arm, alt, pmap.
+  destruct (date_time i); simpl in H1; try contradiction.
+  rewrite H2. reflexivity.
+Qed.
+
+(* ---- C11_int_roundtrip through Value::from_str ----------------------------------------------------- *)
+Lemma no_dt_digits ds : forallb is_digit ds = true -> no_dt ds.
+Proof.
+  induction ds as [|b s IH]; [intros _; exact I|]. cbn [forallb no_dt]. intro H.
+  apply andb_true_iff in H as [Hb Hs]. rewrite Hb. apply IH, Hs.
+Qed.
+
+Lemma digits_then_end_bt t sgn ds :
+  t = sgn ++ ds -> (sgn = [] \/ sgn = [dash]) -> proper_digits ds \/ ds = [x30] ->
+  is_bt (date_time (new_input t)) /\ is_bt (float (new_input t)).
+Proof.
+  intros Ht Hs Hds.
+  assert (Hall : forallb is_digit ds = true /\ ds <> []).
+  { destruct Hds as [[H (d & tl & -> & _)] | ->]; split; auto; discriminate. }
+  destruct Hall as [Hall Hne].
+  split.
+  - apply date_time_bt0. cbn [new_input rest]. subst t.
+    destruct Hs as [-> | ->]; cbn [app].
+    + unfold no_dt0. destruct ds as [|b s]; [exact I|]. cbn [forallb] in Hall.
+      apply andb_true_iff in Hall as [Hb Hs']. rewrite Hb. apply no_dt_digits, Hs'.
+    + exact I.
+  - assert (EB : dec_body_len ds = LOk (length ds)).
+    { destruct Hds as [Hp | ->]; [apply proper_dec_body, Hp | reflexivity]. }
+    assert (EL : dec_int_len t = LOk (length t)).
+    { subst t. destruct Hs as [-> | ->]; cbn [app].
+      - unfold dec_int_len. destruct ds as [|b s]; [contradiction|].
+        cbn [forallb] in Hall. apply andb_true_iff in Hall as [Hb _].
+        unfold is_sign. destruct (digit_not_sign _ Hb) as [-> ->]. exact EB.
+      - unfold dec_int_len. change (is_sign dash) with true. cbv iota. rewrite EB. reflexivity. }
+    apply float_bt.
+    + apply (float__bt _ (length t)); cbn [new_input rest]; [exact EL|]. rewrite skipn_all. exact I.
+    + apply special_float_bt. cbn [new_input rest]. subst t.
+      assert (G : match ds with [] => True | c :: _ => c <> x69 /\ c <> x6e end).
+      { destruct ds as [|c s]; [exact I|]. cbn [forallb] in Hall. apply andb_true_iff in Hall as [Hc _].
+        split; intro E; subst c; discriminate Hc. }
+      destruct Hs as [-> | ->]; cbn [app].
+      * destruct ds as [|c s]; [exact I|]. cbn [forallb] in Hall. apply andb_true_iff in Hall as [Hc _].
+        unfold is_sign. destruct (digit_not_sign _ Hc) as [-> ->]. exact G.
+      * exact G.
+Qed.
+
+Theorem value_write_i64 z :
+  in_i64 z = true -> exists r d, parse_value_raw (write_i64 z) = POk (VScalar (SInt z) r d).
+Proof.
+  intro Hz.
+  pose proof (integer_write_i64 z Hz) as HI.
+  assert (Hshape : exists sgn ds, write_i64 z = sgn ++ ds /\ (sgn = [] \/ sgn = [dash]) /\ (proper_digits ds \/ ds = [x30])).
+  { destruct (write_i64_shape z) as [[_ ->] | (ds & Hp & [(_ & -> & _) | (_ & -> & _)])].
+    - exists [], [x30]. auto.
+    - exists [], ds. auto.
+    - exists [dash], ds. auto. }
+  destruct Hshape as (sgn & ds & Ht & Hs & Hds).
+  destruct (digits_then_end_bt _ sgn ds Ht Hs Hds) as [H1 H2].
+  assert (Hb : exists b tl, write_i64 z = b :: tl /\ num_start b = true).
+  { rewrite Ht. destruct Hs as [-> | ->]; cbn [app].
+    - destruct Hds as [[Hall (d & tl & -> & _)] | ->].
+      + exists d, tl. split; [reflexivity|]. cbn [forallb] in Hall. apply andb_true_iff in Hall as [Hd _].
+        unfold num_start. rewrite Hd. reflexivity.
+      + exists x30, []. auto.
+    - exists dash, ds. auto. }
+  destruct Hb as (b & tl & Hbt & Hn).
+  apply (parse_value_number _ b tl (SInt z) Hbt Hn).
+  apply number_arm_int; assumption.
+Qed.
